@@ -3,6 +3,7 @@ import OsacaVerif.Driver.C12
 import OsacaVerif.Driver.C01
 import OsacaVerif.Driver.DGraph
 import OsacaVerif.Driver.C18
+import OsacaVerif.Driver.C17
 open OsacaVerif OsacaVerif.Proto
 
 /-- one handler per property module; the first that recognises the op answers -/
@@ -10,7 +11,8 @@ def handlers : List (Req → Option String) := [
   Driver.C12.handle,
   Driver.C01.handle,
   Driver.DGraph.handle,
-  Driver.C18.handle
+  Driver.C18.handle,
+  Driver.C17.handle
 ]
 
 def dispatch (r : Req) : String :=
